@@ -31,6 +31,42 @@ type Call struct {
 type Log struct {
 	mu    sync.Mutex
 	Calls []Call
+	mu2      sync.Mutex
+	failNext map[string]error
+}
+
+// FailOnce: the next call of the named backend operation fails with the given error (store histories: backend faults)
+func (l *Log) FailOnce(op string, err error) {
+	l.mu2.Lock()
+	defer l.mu2.Unlock()
+	if l.failNext == nil {
+		l.failNext = map[string]error{}
+	}
+	l.failNext[op] = err
+}
+
+// FailPending reports whether an injected fault has not been consumed yet
+func (l *Log) FailPending() bool {
+	l.mu2.Lock()
+	defer l.mu2.Unlock()
+	return len(l.failNext) > 0
+}
+
+// ClearFail drops injected faults that were not consumed
+func (l *Log) ClearFail() {
+	l.mu2.Lock()
+	defer l.mu2.Unlock()
+	l.failNext = nil
+}
+
+func (l *Log) takeFail(op string) error {
+	l.mu2.Lock()
+	defer l.mu2.Unlock()
+	if err, ok := l.failNext[op]; ok {
+		delete(l.failNext, op)
+		return err
+	}
+	return nil
 }
 
 func (l *Log) add(op, path string, arg interface{}) {
@@ -109,6 +145,9 @@ func (b *Cal) CalendarHomeSetPath(ctx context.Context) (string, error) {
 }
 func (b *Cal) CreateCalendar(ctx context.Context, c *caldav.Calendar) error {
 	b.add("CreateCalendar", c.Path, *c)
+	if err := b.takeFail("CreateCalendar"); err != nil {
+		return err
+	}
 	b.mu.Lock()
 	defer b.mu.Unlock()
 	if b.UniqueCols {
@@ -123,6 +162,9 @@ func (b *Cal) CreateCalendar(ctx context.Context, c *caldav.Calendar) error {
 }
 func (b *Cal) ListCalendars(ctx context.Context) ([]caldav.Calendar, error) {
 	b.add("ListCalendars", "", nil)
+	if err := b.takeFail("ListCalendars"); err != nil {
+		return nil, err
+	}
 	b.mu.Lock()
 	defer b.mu.Unlock()
 	return append([]caldav.Calendar{}, b.Calendars...), nil
@@ -141,6 +183,9 @@ func (b *Cal) GetCalendar(ctx context.Context, path string) (*caldav.Calendar, e
 }
 func (b *Cal) GetCalendarObject(ctx context.Context, path string, req *caldav.CalendarCompRequest) (*caldav.CalendarObject, error) {
 	b.add("GetCalendarObject", path, copyCompReq(req))
+	if err := b.takeFail("GetCalendarObject"); err != nil {
+		return nil, err
+	}
 	b.mu.Lock()
 	defer b.mu.Unlock()
 	if code, ok := b.Fail[path]; ok {
@@ -175,6 +220,9 @@ func (b *Cal) ListCalendarObjects(ctx context.Context, path string, req *caldav.
 }
 func (b *Cal) QueryCalendarObjects(ctx context.Context, path string, q *caldav.CalendarQuery) ([]caldav.CalendarObject, error) {
 	b.add("QueryCalendarObjects", path, *q)
+	if err := b.takeFail("QueryCalendarObjects"); err != nil {
+		return nil, err
+	}
 	if b.FilterOnQuery {
 		return caldav.Filter(q, b.under(path))
 	}
@@ -204,6 +252,9 @@ func (b *Cal) PutCalendarObject(ctx context.Context, path string, cal *ical.Cale
 	var buf bytes.Buffer
 	ical.NewEncoder(&buf).Encode(cal)
 	b.add("PutCalendarObject", path, map[string]interface{}{"ifm": string(opts.IfMatch), "ifnm": string(opts.IfNoneMatch), "data": buf.String()})
+	if err := b.takeFail("PutCalendarObject"); err != nil {
+		return nil, err
+	}
 	if b.PutResult != nil {
 		return b.PutResult(path, cal)
 	}
@@ -218,6 +269,9 @@ func (b *Cal) PutCalendarObject(ctx context.Context, path string, cal *ical.Cale
 }
 func (b *Cal) DeleteCalendarObject(ctx context.Context, path string) error {
 	b.add("DeleteCalendarObject", path, nil)
+	if err := b.takeFail("DeleteCalendarObject"); err != nil {
+		return err
+	}
 	b.mu.Lock()
 	defer b.mu.Unlock()
 	if _, ok := b.Objects[path]; !ok {
@@ -265,6 +319,9 @@ func (b *Card) AddressBookHomeSetPath(ctx context.Context) (string, error) {
 }
 func (b *Card) ListAddressBooks(ctx context.Context) ([]carddav.AddressBook, error) {
 	b.add("ListAddressBooks", "", nil)
+	if err := b.takeFail("ListAddressBooks"); err != nil {
+		return nil, err
+	}
 	b.mu.Lock()
 	defer b.mu.Unlock()
 	return append([]carddav.AddressBook{}, b.Books...), nil
@@ -283,6 +340,9 @@ func (b *Card) GetAddressBook(ctx context.Context, path string) (*carddav.Addres
 }
 func (b *Card) CreateAddressBook(ctx context.Context, ab *carddav.AddressBook) error {
 	b.add("CreateAddressBook", ab.Path, *ab)
+	if err := b.takeFail("CreateAddressBook"); err != nil {
+		return err
+	}
 	b.mu.Lock()
 	defer b.mu.Unlock()
 	if b.UniqueCols {
@@ -309,6 +369,9 @@ func (b *Card) DeleteAddressBook(ctx context.Context, path string) error {
 }
 func (b *Card) GetAddressObject(ctx context.Context, path string, req *carddav.AddressDataRequest) (*carddav.AddressObject, error) {
 	b.add("GetAddressObject", path, copyDataReq(req))
+	if err := b.takeFail("GetAddressObject"); err != nil {
+		return nil, err
+	}
 	b.mu.Lock()
 	defer b.mu.Unlock()
 	if code, ok := b.Fail[path]; ok {
@@ -343,6 +406,9 @@ func (b *Card) ListAddressObjects(ctx context.Context, path string, req *carddav
 }
 func (b *Card) QueryAddressObjects(ctx context.Context, path string, q *carddav.AddressBookQuery) ([]carddav.AddressObject, error) {
 	b.add("QueryAddressObjects", path, *q)
+	if err := b.takeFail("QueryAddressObjects"); err != nil {
+		return nil, err
+	}
 	if b.FilterOnQuery {
 		b.mu.Lock()
 		var all []carddav.AddressObject
@@ -381,6 +447,9 @@ func (b *Card) PutAddressObject(ctx context.Context, path string, card vcard.Car
 	var buf bytes.Buffer
 	vcard.NewEncoder(&buf).Encode(card)
 	b.add("PutAddressObject", path, map[string]interface{}{"ifm": string(opts.IfMatch), "ifnm": string(opts.IfNoneMatch), "data": buf.String()})
+	if err := b.takeFail("PutAddressObject"); err != nil {
+		return nil, err
+	}
 	if b.PutResult != nil {
 		return b.PutResult(path, card)
 	}
@@ -395,6 +464,9 @@ func (b *Card) PutAddressObject(ctx context.Context, path string, card vcard.Car
 }
 func (b *Card) DeleteAddressObject(ctx context.Context, path string) error {
 	b.add("DeleteAddressObject", path, nil)
+	if err := b.takeFail("DeleteAddressObject"); err != nil {
+		return err
+	}
 	b.mu.Lock()
 	defer b.mu.Unlock()
 	if _, ok := b.Objects[path]; !ok {
